@@ -617,7 +617,7 @@ impl WebSocketContext {
                 matches!(self.role, Role::Server),
                 self.config.accept_unmasked_frames,
             )
-            .check_connection_reset(self.state)?
+            .check_connection_reset(&mut self.state)?
         {
             if !self.state.can_read() {
                 return Err(Error::Protocol(ProtocolError::ReceivedAfterClosing));
@@ -776,7 +776,7 @@ impl WebSocketContext {
         }
 
         trace!("Sending frame: {frame:?}");
-        self.frame.buffer_frame(stream, frame).check_connection_reset(self.state)
+        self.frame.buffer_frame(stream, frame).check_connection_reset(&mut self.state)
     }
 
     /// Replace `additional_send` if it is currently a `Pong` message.
@@ -839,14 +839,20 @@ impl WebSocketState {
 
 /// Translate "Connection reset by peer" into `ConnectionClosed` if appropriate.
 trait CheckConnectionReset {
-    fn check_connection_reset(self, state: WebSocketState) -> Self;
+    fn check_connection_reset(self, state: &mut WebSocketState) -> Self;
 }
 
 impl<T> CheckConnectionReset for Result<T> {
-    fn check_connection_reset(self, state: WebSocketState) -> Self {
+    fn check_connection_reset(self, state: &mut WebSocketState) -> Self {
         match self {
             Err(Error::Io(io_error)) => Err({
-                if !state.can_read() && io_error.kind() == io::ErrorKind::ConnectionReset {
+                let close_received = matches!(
+                    *state,
+                    WebSocketState::ClosedByPeer | WebSocketState::CloseAcknowledged
+                );
+                if close_received && io_error.kind() == io::ErrorKind::ConnectionReset {
+                    // The connection is gone: later calls must see `AlreadyClosed`.
+                    *state = WebSocketState::Terminated;
                     Error::ConnectionClosed
                 } else {
                     Error::Io(io_error)
